@@ -1842,6 +1842,19 @@ pub fn run(args: &Args) {
     for (shape, c) in &directed {
         emit(&mut sink, &env, &mut rng, c, shape);
     }
+    // a row whose left_id is negative but not -1 is not indexed either: next to an indexed row it compiles, and analysis of
+    // its surface must not meet it in the lattice
+    for (l, r) in [(-2i64, 0i64), (-2, -2), (-3, 1), (-32768, 0), (-1, 0)] {
+        for user in [false, true] {
+            let mut recs = one(0, 0);
+            let mut second = good_rec(1, 1, 1, &mut Rng::new(8));
+            second.left = Num::Lit(l);
+            second.right = Num::Lit(r);
+            recs.push(second);
+            let case = Case { base: if user { Base::User } else { m33(vec![]) }, recs };
+            emit(&mut sink, &env, &mut rng, &case, "directed_negative_left_id_is_not_indexed");
+        }
+    }
     // the arrays of the word-id table: 126 .. 300 indexed rows with one surface (127 is the limit of the format: it must
     // compile and every one of the rows must be found under the surface; 128 and more must be an error value)
     for (k, unindexed, user) in [(126usize, 0usize, false), (127, 0, false), (128, 0, false), (129, 0, false), (255, 0, false), (256, 0, false), (257, 0, false), (300, 0, false),
